@@ -82,6 +82,32 @@ RProds ==
   \cup { Pr("flat:divderef", <<N("Rp"), T("/"), T("("), T("*"), T("gp"), T(")")>>), Pr("flat:mulderef", <<N("Rp"), T("*"), T("("), T("*"), T("gp"), T(")")>>),
          Pr("flat:andaddr", <<T("("), T("gp"), T("=="), T("("), T("&"), T("x"), T(")"), T(")"), T("&"), T("("), T("&"), T("y"), T("!="), T("gp"), T(")")>>),
          Pr("flat:derefderef", <<T("*"), T("("), T("*"), T("("), T("&"), T("gp"), T(")"), T(")")>>) }
+  \* type names whose meaning hangs on the parentheses of the abstract declarator (6.7.6): sizes differ when they are lost
+  \cup {
+    Pr("tn:sizeof1", <<T("sizeof"), T("(")>> \o <<T("int"), T("("), T("*"), T("const"), T(")"), T("["), T("3"), T("]")>> \o <<T(")")>>),
+    Pr("tn:sizeof2", <<T("sizeof"), T("(")>> \o <<T("int"), T("("), T("*"), T("volatile"), T(")"), T("("), T("int"), T(")")>> \o <<T(")")>>),
+    Pr("tn:sizeof3", <<T("sizeof"), T("(")>> \o <<T("int"), T("*"), T("const"), T("["), T("3"), T("]")>> \o <<T(")")>>),
+    Pr("tn:alignof3", <<T("_Alignof"), T("(")>> \o <<T("int"), T("*"), T("const"), T("["), T("3"), T("]")>> \o <<T(")")>>),
+    Pr("tn:sizeof4", <<T("sizeof"), T("(")>> \o <<T("int"), T("("), T("*"), T(")"), T("["), T("3"), T("]")>> \o <<T(")")>>),
+    Pr("tn:sizeof5", <<T("sizeof"), T("(")>> \o <<T("int"), T("*"), T("["), T("3"), T("]")>> \o <<T(")")>>),
+    Pr("tn:sizeof6", <<T("sizeof"), T("(")>> \o <<T("int"), T("("), T("*"), T("("), T("*"), T(")"), T("("), T("void"), T(")"), T(")"), T("["), T("2"), T("]")>> \o <<T(")")>>),
+    Pr("tn:alignof6", <<T("_Alignof"), T("(")>> \o <<T("int"), T("("), T("*"), T("("), T("*"), T(")"), T("("), T("void"), T(")"), T(")"), T("["), T("2"), T("]")>> \o <<T(")")>>),
+    Pr("tn:sizeof7", <<T("sizeof"), T("(")>> \o <<T("int"), T("*"), T("("), T("*"), T(")"), T("("), T("int"), T(")")>> \o <<T(")")>>),
+    Pr("tn:sizeof8", <<T("sizeof"), T("(")>> \o <<T("int"), T("("), T("*"), T("const"), T("*"), T(")"), T("["), T("2"), T("]")>> \o <<T(")")>>),
+    Pr("tn:sizeof9", <<T("sizeof"), T("(")>> \o <<T("int"), T("("), T("*"), T("["), T("2"), T("]"), T(")"), T("("), T("int"), T(")")>> \o <<T(")")>>),
+    Pr("tn:alignof9", <<T("_Alignof"), T("(")>> \o <<T("int"), T("("), T("*"), T("["), T("2"), T("]"), T(")"), T("("), T("int"), T(")")>> \o <<T(")")>>),
+    Pr("tn:sizeof10", <<T("sizeof"), T("(")>> \o <<T("int"), T("("), T("*"), T("("), T("*"), T("["), T("2"), T("]"), T(")"), T("("), T("void"), T(")"), T(")"), T("["), T("3"), T("]")>> \o <<T(")")>>),
+    Pr("tn:sizeof11", <<T("sizeof"), T("(")>> \o <<T("char"), T("("), T("*"), T("restrict"), T(")"), T("["), T("5"), T("]")>> \o <<T(")")>>),
+    Pr("tn:sizeof12", <<T("sizeof"), T("(")>> \o <<T("struct"), T("S"), T("("), T("*"), T(")"), T("["), T("2"), T("]")>> \o <<T(")")>>),
+    Pr("tn:alignof12", <<T("_Alignof"), T("(")>> \o <<T("struct"), T("S"), T("("), T("*"), T(")"), T("["), T("2"), T("]")>> \o <<T(")")>>),
+    Pr("tn:sizeof13", <<T("sizeof"), T("(")>> \o <<T("int"), T("("), T("*"), T("*"), T("const"), T(")"), T("["), T("2"), T("]")>> \o <<T(")")>>),
+    Pr("tn:sizeof14", <<T("sizeof"), T("(")>> \o <<T("const"), T("int"), T("*"), T("const"), T("*")>> \o <<T(")")>>),
+    Pr("tn:sizeof15", <<T("sizeof"), T("(")>> \o <<T("int"), T("("), T("*"), T(")"), T("("), T("int"), T("("), T("*"), T(")"), T("("), T("void"), T(")"), T(")")>> \o <<T(")")>>),
+    Pr("tn:alignof15", <<T("_Alignof"), T("(")>> \o <<T("int"), T("("), T("*"), T(")"), T("("), T("int"), T("("), T("*"), T(")"), T("("), T("void"), T(")"), T(")")>> \o <<T(")")>>),
+    Pr("tn:sizeof16", <<T("sizeof"), T("(")>> \o <<T("long"), T("("), T("*"), T("("), T("*"), T(")"), T("["), T("2"), T("]"), T(")"), T("("), T("int"), T(","), T("..."), T(")")>> \o <<T(")")>>),
+    Pr("tn:sizeof17", <<T("sizeof"), T("(")>> \o <<T("int"), T("("), T("*"), T("const"), T("["), T("2"), T("]"), T(")"), T("["), T("3"), T("]")>> \o <<T(")")>>),
+    Pr("tn:sizeof18", <<T("sizeof"), T("(")>> \o <<T("char"), T("("), T("*"), T("("), T("*"), T("const"), T(")"), T("("), T("void"), T(")"), T(")"), T("("), T("int"), T(")")>> \o <<T(")")>>),
+    Pr("tn:alignof18", <<T("_Alignof"), T("(")>> \o <<T("char"), T("("), T("*"), T("("), T("*"), T("const"), T(")"), T("("), T("void"), T(")"), T(")"), T("("), T("int"), T(")")>> \o <<T(")")>>) }
   \cup { Pr("flat3:" \o a \o b, <<N("Rp"), T(a), N("Rp"), T(b), N("Rp")>>) :
            a \in {"-", "/", "+", "*", "<<", "&", "|", "^", "<", "==", "&&", "||", "%", ">>"},
            b \in {"-", "/", "+", "*", "<<", "&", "|", "^", "<", "==", "&&", "||", "%", ">>"} }
@@ -157,6 +183,13 @@ ItemProds(l) ==
     Pr("local_quals", <<T("volatile"), T("unsigned"), T("long"), U("u"), T("="), N("R"), T(";")>>),
     Pr("local_fnptr", <<T("int"), T("("), T("*"), U("h"), T(")"), T("("), T("int"), T(","), T("int"), T(")"), T("="), T("g"), T(";")>>),
     Pr("local_typedef", <<T("typedef"), T("int"), U("A"), T("["), T("2"), T("]"), T(";")>>),
+    Pr("local_tn1", <<T("int"), T("("), T("*"), T("const"), U("d"), T(")"), T("["), T("3"), T("]"), T("="), T("0")>> \o <<T(";")>>),
+    Pr("local_tn2", <<T("int"), T("*"), U("d"), T("["), T("3"), T("]"), T("="), T("{"), T("0"), T("}")>> \o <<T(";")>>),
+    Pr("local_tn3", <<T("int"), T("("), T("*"), U("d"), T(")"), T("("), T("int"), T(","), T("int"), T(")"), T("="), T("g")>> \o <<T(";")>>),
+    Pr("local_tn4", <<T("int"), T("("), T("*"), U("d"), T("["), T("2"), T("]"), T(")"), T("("), T("int"), T(","), T("int"), T(")"), T("="), T("{"), T("g"), T(","), T("g"), T("}")>> \o <<T(";")>>),
+    Pr("local_tn5", <<T("int"), T("("), T("*"), T("("), T("*"), U("d"), T(")"), T("("), T("void"), T(")"), T(")"), T("["), T("2"), T("]"), T("="), T("0")>> \o <<T(";")>>),
+    Pr("local_tn6", <<T("int"), T("("), T("*"), T("const"), T("*"), U("d"), T(")"), T("["), T("2"), T("]"), T("="), T("0")>> \o <<T(";")>>),
+    Pr("local_tn7", <<T("char"), T("("), T("*"), T("const"), U("d"), T("["), T("2"), T("]"), T(")"), T("["), T("3"), T("]"), T("="), T("{"), T("0"), T("}")>> \o <<T(";")>>),
     Pr("local_sassert", <<T("_Static_assert"), T("("), T("sizeof"), T("("), T("int"), T(")"), T(">="), T("2"), T(","), T("\"m\""), T(")"), T(";")>>) }
 
 Alts(r) == CASE r = "R" -> RLeaves \cup RProds
